@@ -41,7 +41,9 @@ const outPath = "/sim/out.bin"
 // oddNames: file names with characters that mean something to a shell, to
 // environment expansion, to globbing, to URL or printf-style decoding.
 var oddNames = []string{"/sim/in$1.yml", "/sim/price-5$USD.txt", "/sim/${HOME}.txt", "/sim/my piece.txt", "/sim/~in.txt", "/sim/in%20x%s.yml",
-	"/sim/piece[1].txt", "/sim/päce ♯.txt", "/sim/in*.txt", "/sim/in?.txt", "/sim/a#b.txt", "/sim/in.txt;x", "/sim/in\\x.txt", "/sim/{a,b}.txt", "/sim/-in.txt", "/sim/in.txt ", "/sim/C:in.txt", "/sim/in'q\".txt"}
+	"/sim/piece[1].txt", "/sim/päce ♯.txt", "/sim/in*.txt", "/sim/in?.txt", "/sim/a#b.txt", "/sim/in.txt;x", "/sim/in\\x.txt", "/sim/{a,b}.txt", "/sim/-in.txt", "/sim/in.txt ", "/sim/C:in.txt", "/sim/in'q\".txt",
+	// names that look like something else than they are
+	"/sim/in.txt.gz", "/sim/piece.yml.bz2", "/sim/in.zip", "/sim/in.json", "/sim/in.mid", "/sim/http:in.txt"}
 
 func (p *C12) Generate(seed uint64, run int) *Case {
 	r := model.NewRand(seed, fmt.Sprintf("C12/%d", run))
@@ -307,6 +309,15 @@ func (p *C12) Generate(seed uint64, run int) *Case {
 		})
 	}
 	if r.Chance(1, 4) {
+		// -o names a symbolic link to a file in another directory
+		add("outpath:symlink", func(st *Step) {
+			st.Argv = append(st.Argv, "-o", "/sim/link.bin")
+			st.Files = cloneFiles(st.Files)
+			st.Files["/sim/link.bin"] = &simrt.FileSpec{SymlinkTo: "/sim/elsewhere/real.bin"}
+			st.Files["/sim/elsewhere/.keep"] = &simrt.FileSpec{Data: []byte{}}
+		})
+	}
+	if r.Chance(1, 4) {
 		add("outpath:odd-name", func(st *Step) {
 			st.Argv = append(st.Argv, "-o", strings.Replace(model.Pick(r, oddNames), "/sim/", "/sim/out/", 1))
 			st.Files = cloneFiles(st.Files)
@@ -519,6 +530,9 @@ func isOutVariant(st *Step) bool { return outArg(st.Argv) != "" }
 
 func resultBytes(st *Step, r *Result) []byte {
 	if o := outArg(st.Argv); o != "" {
+		if f := st.Files[o]; f != nil && f.SymlinkTo != "" {
+			return r.Created[f.SymlinkTo]
+		}
 		return r.Created[o]
 	}
 	return r.Stdout
